@@ -287,6 +287,52 @@ def sums_over_reads(case, ctx, whole):
     return out
 
 
+def isolated_modifier_accounting(case, ctx, files):
+    """
+    Clause 7: the quality-trimmed and poly-A-trimmed base counts are checked against what the
+    output files show when that modifier is the only one at work: trimmed bp of read i =
+    input bp - output bp of read i (no filter, no other modifier, plain outputs).
+    """
+    out = []
+    paired = case["paired"]
+    ext = ".fastq" if case["fmt"] == "fastq" else ".fasta"
+    base_outs = [["-o", "/simfs/iso1" + ext]] + ([["-p", "/simfs/iso2" + ext]] if paired else []) + [["--json", "/simfs/iso.json"]]
+    if case["input"]["layout"] == "interleaved":
+        base_outs.append(["--interleaved"])
+    groups = {
+        "quality_trimmed": [g for g in case["opts"] if g[0] in ("-q", "-Q", "--nextseq-trim")],
+        "poly_a_trimmed": [g for g in case["opts"] if g[0] == "--poly-a"],
+    }
+    for key, opts in groups.items():
+        if not opts or (key == "quality_trimmed" and case["fmt"] != "fastq"):
+            continue
+        r = ctx.run("iso-" + key, gen.build_argv(case, cores=1, opts=opts, outs=base_outs), files, parallel=False)
+        if r.exit != 0:
+            continue
+        j = C.load_json_report(r, "/simfs/iso.json")
+        bc = j["basepair_counts"]
+        for i, side in ((1, "read1"), (2, "read2")):
+            if i == 2 and not paired:
+                continue
+            removed = bc[f"input_{side}"] - bc[f"output_{side}"]
+            reported = bc[f"{key}_{side}"]
+            if (reported or 0) != removed:
+                out.append(C.V("modifier-accounting", f"with only {[' '.join(g) for g in opts]}: {key}_{side}={reported} but {removed} bases of {side} were removed (input {bc[f'input_{side}']}, output {bc[f'output_{side}']})"))
+        total = bc[key]
+        if (total or 0) != (bc["input"] - bc["output"]):
+            out.append(C.V("modifier-accounting", f"with only {[' '.join(g) for g in opts]}: {key}={total} but {bc['input'] - bc['output']} bases were removed"))
+        # the figures themselves are tied to the files by the main clauses; here also check them
+        try:
+            d = {"role": "sink", "paths": ["/simfs/iso1" + ext] + (["/simfs/iso2" + ext] if paired else []), "interleaved": False, "key": None}
+            f_, r1, r2 = C.read_dest(r, d)
+            if sum(len(x[1]) for x in r1) != bc["output_read1"] or (paired and sum(len(x[1]) for x in r2) != bc["output_read2"]):
+                out.append(C.V("modifier-accounting", f"isolated run: output bp in report and files differ"))
+        except Exception:
+            pass
+        ctx.results.pop("iso-" + key, None)
+    return out
+
+
 def evaluate(case, ctx):
     files = engine.gen_files(case)
     case["meta"]["nonempty"] = []
@@ -315,6 +361,8 @@ def evaluate(case, ctx):
     else:
         viols += [v for v in judge(case, par, "par")]
     n = len(case["records"])
+    if not viols and n <= 200:
+        viols += isolated_modifier_accounting(case, ctx, files)
     if not viols and 0 < n <= 14 and case["knobs"]["sched_seed"] % 6 == 0 and any(g[0] == "--json" for g in case["outs"]):
         viols += sums_over_reads(case, ctx, ref)
     # the same defect usually shows in both runs: keep one violation per clause
